@@ -116,6 +116,13 @@ def replay(w):
             if st.point_labels is cp.point_labels or st.arguments is cp.arguments or st.clusters is cp.clusters:
                 shared.append('container')
             obs['shared'] = shared
+            a0, a1 = st.arguments, cp.arguments
+            same = all(np.array_equal(np.asarray(getattr(a0, f)), np.asarray(getattr(a1, f))) for f in
+                       ('sparsity_weight', 'label_switching_cost', 'min_meaningful_covariance', 'iteration_limit',
+                        'min_cluster_size', 'num_clusters', 'window_size', 'biased_covariance'))
+            if not same and not shared:
+                sig = 'deep-copy-differs-from-source'
+                obs['arguments_differ'] = True
             if shared:
                 only_args = all(s.startswith('arguments.') for s in shared)
                 sig = 'deep-copy-shares-array-valued-hyperparameters' if only_args else 'deep-copy-shares-state'
